@@ -352,7 +352,7 @@ class C02(Check):
     expected_probes = ('second-call-same-objects',)
 
     def gen(self, ch, tier):
-        sc = gen_scenario(ch, backends=ALL_BACKENDS, cache='sometimes', fail=1, die=True, cof=(True, True, False), bust=True)
+        sc = gen_scenario(ch, backends=ALL_BACKENDS, cache='sometimes', fail=1, die=True, cof=(True, True, False), bust=True, load_faults=True)
         return with_die_kills(sc, ch)
 
     def oracle(self, sc, out, facts):
